@@ -243,7 +243,7 @@ class Enumerator(object):
                         if not q.done:
                             val = q.value
                             pat = s['pat']
-                            if pat.get('k') == 'Bind' and 'Mut' in pat.get('mode', '') and val is not None and val[0] == 'call' and len(val[2]) == 0:
+                            if pat.get('k') == 'Bind' and pat['id'] not in self.ev.mutated and 'Mut' in pat.get('mode', '') and val is not None and val[0] == 'call' and len(val[2]) == 0:
                                 # `let mut x = T::new()`: a fresh mutable object keeps its own identity
                                 q.effects.append('let %s = %s' % (pat['name'], S.show(val)))
                                 val = None
